@@ -192,6 +192,13 @@ class Lib:
             return '((%s){0})' % ti.c
         if ti.kind == 'vec' and len(args) == 1 and em.T(qt(args[0])).kind == 'vec':
             return em.e(args[0])
+        if ti.kind == 'vec':
+            real = [a for a in args if a.get('kind') != 'CXXDefaultArgExpr']
+            if len(real) == 2 and em.T(qt(real[0])).kind == 'int' and em.T(qt(real[1])).c == ti.elem.c:
+                # vector(n, value)
+                return '%s_fill(%s, %s)' % (ti.c, em.e(real[0]), em.e(real[1]))
+            if len(real) == 0:
+                return '((%s){0})' % ti.c
         if ti.kind == 'pair':
             if len(args) == 2:
                 return '%s_make(%s, %s)' % (ti.c, em.e(args[0]), em.e(args[1]))
@@ -292,6 +299,16 @@ class Lib:
                 return '0x7fffffff'
             if t.c == 'unsigned int':
                 return '0xffffffffu'
+        if name == 'any_of' and len(args) == 3:
+            t0 = em.T(qt(args[0]))
+            if t0.kind in ('vit', 'ptr'):
+                clo = em.addr(args[2])
+                cti = em.T(qt(args[2]))
+                ops = em.lambda_ops.get(cti.c.replace('struct ', ''), [])
+                if len(ops) == 1:
+                    nm = 'any_of__' + t0.elem.mangle() + '__' + ops[0]
+                    self.gen_once(nm, 'DEF_ANY_OF_PTR(%s, %s, %s, %s)' % (nm, t0.elem.c, cti.c, ops[0]))
+                    return '%s(%s, %s, %s)' % (nm, em.e(args[0]), em.e(args[1]), clo)
         if name == 'upper_bound' and len(args) == 4:
             t0 = em.T(qt(args[0]))
             if t0.kind in ('vit', 'ptr'):
@@ -422,7 +439,7 @@ class Lib:
                 return em.e(args[0])
         if t0.kind in ('it', 'vit'):
             return self.iter_op(em, n, name, args, t0)
-        if t0.kind in ('sv', 'pair', 'ec', 'dur', 'str') and name == 'operator=':
+        if t0.kind in ('sv', 'pair', 'ec', 'dur', 'str', 'vec') and name == 'operator=':
             return '(%s = %s)' % (em.e(args[0]), em.e(args[1]))
         if t0.kind == 'ec' or (len(args) > 1 and em.T(qt(args[1])).kind == 'ec'):
             if name in ('operator==', 'operator!='):
